@@ -211,15 +211,28 @@ def abstract_frame(msg, to):
     return {"kind": "unknown", "to": t}
 
 
-def settle(clients, seconds, want=None):
-    """Collect frames from all clients for a while; returns list of (client name, json msg)."""
+def settle(clients, seconds, sender=None, max_wait=2.0, grace=0.08):
+    """Collect frames from all clients; returns list of (client name, json msg).
+    Waits `seconds`; if `sender` is given and nothing has arrived for it yet (and it is still open), keeps
+    waiting up to max_wait for its reply, then a short grace period for frames still in flight to others -
+    so that a loaded machine does not turn a slow reply into a missing one."""
     got = []
-    t_end = time.monotonic() + seconds
+    t0 = time.monotonic()
+    t_end = t0 + seconds
+    sender_seen_at = None
     while True:
         for c in clients:
             for m in c.pump():
                 got.append((c.name, m))
-        left = t_end - time.monotonic()
+                if sender is not None and c.name == sender.name and sender_seen_at is None:
+                    sender_seen_at = time.monotonic()
+        now = time.monotonic()
+        if sender is not None and not sender.closed:
+            if sender_seen_at is None:
+                t_end = max(t_end, min(t0 + max_wait, now + 0.05))
+            else:
+                t_end = max(t_end, sender_seen_at + grace)
+        left = t_end - now
         if left <= 0:
             break
         socks = [c.sock for c in clients if not c.closed]
